@@ -119,6 +119,36 @@ def related_names_registered(ck, par, adds, rule):
     ck.floor(rule, "scheduling arms without a related name", n, 3)
 
 
+def r10_worker_error_weighed(ck, par):
+    """The single-threaded run stops at the first patch that breaks; an error in a later patch is never reached.  A worker that ran
+    ahead may meet such an error.  It may abort the push only if its patch is not past the earliest broken patch - so where the
+    driver returns an apply worker's error (between the apply phase and the save phase) that return has to depend on a comparison
+    with the earliest-broken index."""
+    rule = "C06-R10"
+    phases = [bb for bb, t in par.calls() if (callee_of(t).get("rpath") or "").endswith("ParallelIterator::for_each") and not par.blocks[bb]["cleanup"]]
+    if not ck.require(len(phases) >= 2, rule, "apply phase and save phase found in the parallel driver", "%d parallel for_each calls" % len(phases), par.where()):
+        return
+    apply_bb, save_bb = phases[0], phases[-1]
+    rets = []
+    for bb, idx, s in par.stmts():
+        if s["k"] == "assign" and s["lhs"]["l"] == 0 and "p" not in s["lhs"] and s["rv"]["k"] == "agg" and s["rv"].get("variant") == "Err" and \
+                not par.blocks[bb]["cleanup"] and bb in cfg.reachable_from_after(par, apply_bb) and save_bb not in cfg.reachable(par, [bb]) and \
+                not cfg.dominates(par, save_bb, bb):
+            rets.append((bb, s))
+    ck.floor(rule, "error returns between the apply phase and the save phase", len(rets), 1)
+    cmp_guards = []
+    for g in guards.find_bool_guards(par, lambda e: isinstance(e, tuple) and e[0] == "bin" and e[1] in ("Lt", "Le", "Gt", "Ge", "Eq", "Ne")):
+        if df.mentions_deep(par, g["expr"], lambda x: df.is_call(x, "AtomicUsize::load")):
+            cmp_guards.append(g)
+    for bb, s in rets:
+        weighed = any(bb in cfg.dominated_by_edge(par, g["true_edge"]) or bb in cfg.dominated_by_edge(par, g["false_edge"]) for g in cmp_guards)
+        ck.require(weighed, rule, "an apply worker's error aborts the push only when its patch is not past the earliest broken patch",
+                   "the driver returns the error of whichever apply worker failed, without comparing the index of its patch with the earliest "
+                   "broken patch: a worker that ran ahead of a rejected patch and hit an error there (unreadable target, a directory, an unsafe "
+                   "name) aborts the whole push - nothing saved, no rejects - while the single-threaded run stops at the rejected patch and never "
+                   "reaches that error", par.where(s))
+
+
 def stop_tests(prog, apply_worker):
     """Where the apply worker compares a patch index with the shared earliest-broken index in order to stop: a guard inside the loop
     whose one edge leaves it, or the predicate of a `take_while` over the iterator the loop draws from (evaluated before every item,
@@ -288,6 +318,7 @@ def run(ck):
     c05.r4(ck, par, rule="C06-R6")
     # run-ahead patches are undone newest-first, and only forgotten once undone (what a worker applied past the failing patch must
     # leave no trace, whichever schedule let it get that far)
+    r10_worker_error_weighed(ck, par)
     c04.r3_lifo(ck, rule="C06-R9")
     c04.r3b_pop_after_rollback(ck, rule="C06-R9")
 
